@@ -67,8 +67,8 @@ def dump(b, show_noise=False, out=sys.stdout):
 
 if __name__ == "__main__":
     import re
-    d = sorted(glob.glob("/verif/.cache/facts/*/DONE"), key=os.path.getmtime)[-1]
-    F = fx.load(os.path.dirname(d))
+    from . import extract as ex
+    F = fx.load(ex.latest_facts_dir())
     pat = sys.argv[1]
     for b in F.find(pat):
         dump(b, "--all" in sys.argv)
